@@ -252,6 +252,7 @@ void Reference::get_polygons(bool apply_repetitions, bool include_paths, int64_t
                 dst->copy_from(*src);
             }
             dst->transform(magnification, x_reflection, rotation, origin + *offset_p++);
+            dst->repetition.transform(magnification, x_reflection, rotation);
             result.append_unsafe(dst);
         }
     }
@@ -289,6 +290,7 @@ void Reference::get_flexpaths(bool apply_repetitions, int64_t depth, bool filter
                 dst->copy_from(*src);
             }
             dst->transform(magnification, x_reflection, rotation, origin + *offset_p++);
+            dst->repetition.transform(magnification, x_reflection, rotation);
             result.append_unsafe(dst);
         }
     }
@@ -326,6 +328,7 @@ void Reference::get_robustpaths(bool apply_repetitions, int64_t depth, bool filt
                 dst->copy_from(*src);
             }
             dst->transform(magnification, x_reflection, rotation, origin + *offset_p++);
+            dst->repetition.transform(magnification, x_reflection, rotation);
             result.append_unsafe(dst);
         }
     }
@@ -363,6 +366,7 @@ void Reference::get_labels(bool apply_repetitions, int64_t depth, bool filter, T
                 dst->copy_from(*src);
             }
             dst->transform(magnification, x_reflection, rotation, origin + *offset_p++);
+            dst->repetition.transform(magnification, x_reflection, rotation);
             result.append_unsafe(dst);
         }
     }
